@@ -45,6 +45,46 @@ def succ_insts(fn, inst):
 
 
 def exists_path(fn, start, goal, avoid, include_start=False, max_steps=200000):
+    """path search; in a function that contains inlined helper bodies a path found by the plain search is confirmed by a search that
+    propagates constants through _Bool locals and result slots (an inlined `return false;` followed by `if (!helper()) return;` in the
+    caller is then not mistaken for a path into the code after the test)"""
+    p = _exists_path_plain(fn, start, goal, avoid, include_start, max_steps)
+    if p is None or not getattr(fn, "has_inlined", None):
+        return p
+    ok = _exists_path_sensitive(fn, start, goal, avoid, include_start)
+    return p if ok else None
+
+
+def _exists_path_sensitive(fn, start, goal, avoid, include_start):
+    from . import pathwalk
+    from .pending import bool_cells
+    found = []
+    sid = None if start is None else start.id
+
+    def on_inst(i, u, facts):
+        if found:
+            return []
+        if u == 0:
+            if sid is None or i.id == sid:
+                u = 1
+                if sid is not None and not include_start:
+                    return [1]
+            else:
+                return None
+        if avoid is not None and avoid(i):
+            return []
+        if (goal == "exit" and i.op == "ret") or (goal != "exit" and goal(i)):
+            found.append(i)
+            return []
+        return [u]
+    W = pathwalk.Walker(fn, cells=bool_cells(fn), max_states=120000)
+    W.walk(0 if sid is not None else 1, on_inst) if sid is not None else W.walk(0, on_inst)
+    if W.truncated:
+        return True
+    return bool(found)
+
+
+def _exists_path_plain(fn, start, goal, avoid, include_start=False, max_steps=200000):
     """Is there a path from `start` (exclusive unless include_start) to an instruction satisfying goal(inst)
     (or to a return when goal == 'exit') that passes no instruction satisfying avoid(inst)?
     Returns the list of instructions of one such path or None."""
